@@ -394,6 +394,18 @@ def ob_sig_table(run, oid):
                             isinstance(terms[j], tuple) and terms[j][0] == "is_some" and not a[j] and set(n for (_o, n) in mir.fields_in(terms[j][1][0])) & set(n for (_o, n) in mir.fields_in(t))
                             for j in range(len(terms))) for a, v in table.items())
             o.check(bool(ok), "%s::check_sig|both-halves" % st, "the verdict is true only when each half is absent or verified (conjunction of both halves)", b.span)
+            # 'absent' means None: nothing (filter / take_if / and_then ..) may narrow which stored halves count as present before they reach verify
+            narrowed = []
+            for fb in prog.family(b.defpath):
+                for c2 in fb.calls():
+                    if c2.name.rsplit("::", 1)[-1] in ("is_none_or", "is_some_and", "map_or", "map", "and_then") and "option::Option" in c2.name and c2.args:
+                        recv = fb.operand_term(c2.args[0])
+                        if any(K.mentions_field(recv, h, st) for h in halves):
+                            inner = [x[1].rsplit("::", 1)[-1] for x in mir.walk(recv) if isinstance(x, tuple) and x and x[0] == "call"]
+                            bad = [n for n in inner if n in ("filter", "take_if", "and_then", "xor", "zip", "or", "take", "then", "then_some")]
+                            if bad:
+                                narrowed.append((c2.span, bad))
+            o.check(not narrowed, "%s::check_sig|present-means-some" % st, "every stored (Some) half reaches verify: no filter / take_if narrows which halves count as present", b.span, {"narrowed": narrowed[:2]})
         else:
             vs = [c for c in b.calls_to(AGG + "::verify")]
             o.check(len(vs) == 1 and vs[0].dst["l"] == 0, "%s::check_sig|verdict" % st, "the verdict is the verify result", b.span)
